@@ -171,11 +171,11 @@ func (e *kvElection) handleWatchEvent(entry Entry) {
 	if entry == nil {
 		log := e.getLogger()
 		log.Debug("watch_event_key_deleted",
-			append(e.logWithContext(e.ctx),
+			append(e.logWithContext(e.runContext()),
 				zap.String("key", e.key),
 			)...,
 		)
-		ctx := e.ctx
+		ctx := e.runContext()
 		e.wg.Add(1)
 		go func() {
 			defer e.wg.Done()
@@ -188,11 +188,11 @@ func (e *kvElection) handleWatchEvent(entry Entry) {
 	if len(valueBytes) == 0 {
 		log := e.getLogger()
 		log.Debug("watch_event_key_empty",
-			append(e.logWithContext(e.ctx),
+			append(e.logWithContext(e.runContext()),
 				zap.String("key", e.key),
 			)...,
 		)
-		ctx := e.ctx
+		ctx := e.runContext()
 		e.wg.Add(1)
 		go func() {
 			defer e.wg.Done()
@@ -215,7 +215,7 @@ func (e *kvElection) handleWatchEvent(entry Entry) {
 		if newLeaderID != e.cfg.InstanceID && entry.Revision() > e.revision.Load() {
 			log := e.getLogger()
 			log.Warn("leadership_lost_via_watcher",
-				append(e.logWithContext(e.ctx),
+				append(e.logWithContext(e.runContext()),
 					zap.String("new_leader_id", newLeaderID),
 					zap.Uint64("revision", entry.Revision()),
 				)...,
@@ -229,7 +229,7 @@ func (e *kvElection) handleWatchEvent(entry Entry) {
 	if currentLeaderID != newLeaderID {
 		log := e.getLogger()
 		log.Info("leader_changed",
-			append(e.logWithContext(e.ctx),
+			append(e.logWithContext(e.runContext()),
 				zap.String("old_leader_id", currentLeaderID),
 				zap.String("new_leader_id", newLeaderID),
 				zap.Uint64("revision", entry.Revision()),
@@ -244,7 +244,7 @@ func (e *kvElection) handleWatchEvent(entry Entry) {
 	if e.cfg.AllowPriorityTakeover && e.cfg.Priority > payload.Priority {
 		log := e.getLogger()
 		log.Info("priority_takeover_opportunity",
-			append(e.logWithContext(e.ctx),
+			append(e.logWithContext(e.runContext()),
 				zap.String("current_leader", currentLeaderID),
 				zap.Int("current_priority", payload.Priority),
 				zap.Int("our_priority", e.cfg.Priority),
@@ -258,7 +258,7 @@ func (e *kvElection) handleWatchEvent(entry Entry) {
 			if err := e.attemptAcquire(); err != nil {
 				// Takeover failed - stay as follower
 				log.Debug("priority_takeover_failed",
-					append(e.logWithContext(e.ctx),
+					append(e.logWithContext(e.runContext()),
 						zap.Error(err),
 					)...,
 				)
